@@ -29,6 +29,10 @@ CHECKS = {
          "generated-input search over (key shape, RNG seed) with validity and round-trip oracles: bindings and back signatures verify, export/import equality, requested flags/preferences/features present, sign/verify and encrypt/decrypt usability incl. wrong-password refusal, independent de-framing and key-packet decoding of the export; illegal shapes must be refused",
          "exploration: ~4k (thorough ~80k) keys of the cheap shapes (Ed25519Legacy/Ed25519/P-256 primaries, Curve25519Legacy/X25519/P-256 encryption subkeys, signing subkeys, locked/unlocked, 0..3 user ids, v4/v6) and 60 (1.5k) of the expensive ones (Ed448, P-384, P-521, secp256k1, RSA-2048, DSA-2048, X448); leading-zero field occurrences are measured per run",
          "1/256 leading-zero cases are probabilistic: ~1.3k Curve25519Legacy subkeys per quick run give ~5 expected occurrences per field; expensive algorithms get far fewer seeds"),
+ "C08": ("DESIGN.md §4 C08",
+         "generated-input search with a round-trip oracle (lock, serialize, parse, unlock == original packet) and a must-fail oracle for wrong passwords and single-bit tampering; locked packets come both from rPGP's API and from an independent reference (R-crypto + own key-packet encoder) covering every S2K usage octet",
+         "exploration: ~3k+3k (thorough 100k+100k) locked keys over all zoo signing/encryption algorithms, v4/v6, primary and subkey tags; usage 253 x AES x {EAX,OCB,GCM}, usage 254 x 11 ciphers, usage 255 and legacy cipher octet from the wire; S2K simple/salted/iterated (several counts)/argon2; passwords empty, ASCII, UTF-8, non-UTF-8, 1 KiB; 4 wrong passwords and ~5 bit flips (blob, IV/nonce, S2K parameters, cipher octet, AEAD-bound public fields, packet tag) per key",
+         "16-bit-checksum modes (255, legacy) may accept a tampered blob with probability 2^-16: counted, not judged; whether v6 keys with usage 255/legacy are refused outright is not asserted"),
  "C09": ("DESIGN.md §4 C09",
          "metamorphic generated-input search (reference run vs runs under generated source/consumer/sink schedules) + exhaustive single-fault enumeration (source call k / sink write k, sticky and transient) for a fixed list of builder configurations and armored writers, sampled faults elsewhere",
          "exploration + fault enumeration: builder output byte-identical under any source/sink fragmentation (clock-free configurations), reader results identical under any source schedule and consumer (read, read_to_end, alternating, exact, fill_buf/consume), Dearmor, key import, detached sign/verify data readers, cleartext parser, CFB stream encryptor; every source call index and sink write index of 48 (quick 24) builder configurations x 3 payload sizes and of 20 armored writers fails once, sticky and transient",
